@@ -41,6 +41,8 @@ func main() {
 		cmdCodecs16(*seed, *n, *out, *replay, *tier)
 	case "mercreport":
 		cmdMercReport(*seed, *n, *out, *replay, *tier)
+	case "converge":
+		cmdConverge(*seed, *n, *out, *replay, *tier)
 	case "cost":
 		cmdCost(*seed, *n, *out, *replay, *tier)
 	case "mtls":
